@@ -70,7 +70,9 @@ def impl():
         from mitxgraders.helpers.calc import exceptions as cx
         from mitxgraders.helpers.calc.math_array import MathArray
         import pyparsing
-        _IMPL.update(ex=ex, cx=cx, MathArray=MathArray, ParseResults=pyparsing.ParseResults)
+        from mitxgraders.helpers.calc import mathfuncs as mf
+        import numpy as np
+        _IMPL.update(ex=ex, cx=cx, mf=mf, MathArray=MathArray, ParseResults=pyparsing.ParseResults, nperr=dict(np.geterr()))
     return _IMPL
 
 
@@ -164,15 +166,22 @@ def _h(a):
     return a + 1
 
 
-FUNCS = {'f': _f, 'g': _g}
+LIBRARY_FUNCS = ('ln', 'cot', 'exp')      # taken from the library's DEFAULT_FUNCTIONS at call time (numpy underneath)
+FUNCS = {'f': _f, 'g': _g, 'ln': None, 'cot': None, 'exp': None}
 FUNCS_ALL = dict(FUNCS, h=_h)
+
+
+def resolve_funcs(d):
+    mf = impl()['mf']
+    return dict((n, mf.DEFAULT_FUNCTIONS[n] if n in LIBRARY_FUNCS else v) for n, v in d.items())
 
 ENV_COQ = ('Definition fenv0 (n : str) : option (list val -> res val) :=\n'
            '  if str_eqb n %s || str_eqb n %s then Some (fun a => match a with [VS c] => chk (cadd c cone) '
            '| [VA _] => Err EUnsupported | _ => Err (EFunc 0) end)\n'
            '  else if str_eqb n %s then Some (fun a => match a with [VS c; VS d] => chk (cmul c d) | [_; _] => Err EUnsupported '
            '| _ => Err (EFunc 0) end)\n'
-           '  else None.\n' % (strl('f'), strl('h'), strl('g')) +
+           '  else if str_eqb n %s || str_eqb n %s || str_eqb n %s then Some (fun _ => Err EUnsupported)\n'
+           '  else None.\n' % (strl('f'), strl('h'), strl('g'), strl('ln'), strl('cot'), strl('exp')) +
            'Definition vars_all : list (str * val) := [%s].\n' % '; '.join(
                '(%s, VS (mkC %s 0))' % (strl(n), ql(v)) for n, v in sorted(VARS_ALL.items())) +
            'Definition sufs_all : list (str * Q) := [%s].\n' % '; '.join(
@@ -264,13 +273,13 @@ def do_call(call, handed, scope=None):
     I = impl()
     ex, PR = I['ex'], I['ParseResults']
     kind, s, md = call[0], call[1], call[2]
-    V, F, S = VARS, FUNCS, SUFS
+    V, F, S = VARS, resolve_funcs(FUNCS), SUFS
     if kind == 'evalC':
         if scope is not None:
             V, F, S = scope
         else:
             V = dict((n, VARS_ALL[n]) for n in call[3][0])
-            F = dict((n, FUNCS_ALL[n]) for n in call[3][1])
+            F = resolve_funcs(dict((n, FUNCS_ALL[n]) for n in call[3][1]))
             S = dict((n, SUFS_ALL[n]) for n in call[3][2])
     if kind == 'parse':
         st, r = core.guarded(ex.parse, s, seconds=PATIENCE[0])
@@ -327,6 +336,7 @@ CONSUMERS = {
     'fg_whitelist_none': (['u + n*n'], ['u + n*n', 'n^2 + u', 'u+n*n+sin(0)']),
     'fg_whitelist_sin': (['x+1'], ['x+1', 'x+cos(0)', 'x+1+cos-cos', 'x+sin(0)+1', 'cos(0)+x+cos-cos']),
     'fg_blacklist_cos': (['x+1'], ['x+1', 'x+cos(0)', 'x+sin(0)+1']),
+    'fg_allow_inf': (['1/x'], ['1/x', '1/0', 'x/0', 'ln(0)+1/x']),
 }
 TWINS = {'fg_instructor:c*x': 'fg_instructor:x*c', 'fg_instructor:x*c': 'fg_instructor:c*x'}
 
@@ -359,6 +369,8 @@ def call_consumer(cid, inp):
         return mg.FormulaGrader(answers='u + n*n', variables=['u', 'n'], whitelist=[None])(None, inp)
     if cid == 'fg_whitelist_sin':
         return mg.FormulaGrader(answers='x+1', variables=['x', 'cos'], whitelist=['sin'])(None, inp)
+    if cid == 'fg_allow_inf':
+        return mg.FormulaGrader(answers='1/x', variables=['x'], allow_inf=True)(None, inp)
     if cid == 'fg_blacklist_cos':
         return mg.FormulaGrader(answers='x+1', variables=['x'], blacklist=['cos'])(None, inp)
     raise ValueError(cid)
@@ -380,13 +392,25 @@ def run_sequence(calls):
     P = ex.MathParser()
     ex.PARSER = P
     handed, out = [], []
-    scope = (dict(VARS), dict(FUNCS), dict(SUFS))
-    universe = (VARS_ALL, FUNCS_ALL, SUFS_ALL)
+    scope = (dict(VARS), resolve_funcs(FUNCS), dict(SUFS))
+    universe = (VARS_ALL, resolve_funcs(FUNCS_ALL), SUFS_ALL)
     with_consumers = any(c[0] in ('consumer', 'newparser') for c in calls)
     seen = []
 
+    import numpy as np
+    baseline = dict(impl()['nperr'])
+    np.seterr(**baseline)              # process-wide numeric error handling as right after importing the library
+
+    def with_process_state(outcome):
+        """process-wide state a call leaves behind is part of what later calls see: numpy's error handling"""
+        now = dict(np.geterr())
+        if now != baseline and outcome != ('timeout',):
+            return ('process-state', outcome, tuple(sorted(now.items())))
+        return outcome
+
     def direct(eff, j, sc=None):
         obs, outcome = do_call(eff, handed, sc)
+        outcome = with_process_state(outcome)
         if with_consumers:
             state = ('skip',)
         else:
@@ -399,7 +423,7 @@ def run_sequence(calls):
     for j, call in enumerate(calls):
         if call[0] == 'newparser':           # a brand-new MathParser takes over as the shared one, new scope dicts too
             ex.PARSER = ex.MathParser()
-            scope = (dict(VARS), dict(FUNCS), dict(SUFS))
+            scope = (dict(VARS), resolve_funcs(FUNCS), dict(SUFS))
             del seen[:]
             continue
         if call[0] == 'edit':
@@ -417,7 +441,7 @@ def run_sequence(calls):
                 outcome = exc_outcome(r)
             else:
                 outcome = ('timeout',)
-            out.append((('consumer',), outcome, ('skip',), call, j))
+            out.append((('consumer',), with_process_state(outcome), ('skip',), call, j))
             for t in consumer_strings(call[1], call[2]):
                 if t not in seen:
                     seen.append(t)
@@ -431,6 +455,7 @@ def run_sequence(calls):
         if call[0] == 'evalS':
             eff = ('evalC', call[1], call[2], scope_content(scope))
         direct(eff, j, scope if call[0] == 'evalS' else None)
+    np.seterr(**baseline)
     changed = None
     for i, (obj, nm) in enumerate(handed):
         try:
@@ -606,6 +631,10 @@ EXTRA_CALLS = [('parse', DEEP_FUN, None), ('eval', DEEP_ARR, None),
                ('evalI', '[1, 1e308*100]', 0), ('evalI', 'x+1e308*100', None), ('eval', 'x+1e308*100', None), ('evalI', 'x+y', None),
                ('evalC', 'x+y', None, (('x',), (), ())), ('evalC', 'f(x)+2k*f', None, (('f', 'x'), (), ('k',))),
                ('evalC', '[y,2e]', 1, (('y',), ('f',), ())),
+               # evaluations that raise, with and without allow_inf, and calls whose outcome depends on numpy's error handling
+               ('evalI', '1/0', None), ('eval', '1/0', None), ('evalI', 'f(1,2)', None), ('evalI', 'zz+1', None),
+               ('evalI', 'ln(0)', None), ('eval', 'ln(0)', None), ('eval', 'cot(0)', None), ('eval', '[1,2]/0', None),
+               ('eval', 'exp(1000)', None), ('evalI', 'exp(1000)*0+1/0', None),
                ('eval', None, None), ('eval', '  \t ', None), ('eval', '[y,2e]', 0), ('eval', ' x + y ', 0),
                ('eval', 'x y', None), ('parse', 'x y', None)]
 
@@ -1474,7 +1503,8 @@ def random_histories(ctx, res, rng, stats, rendered):
     for _ in range(n):
         pool = [rng.choice(base) for _ in range(rng.randint(2, 5))]
         if rng.random() < 0.25:
-            pool.append(rng.choice(['1e400', '1e308*100', '[1, 1e308*100]', '2^2000', '1e308*100+x', '-1e400', '1e400k']))
+            pool.append(rng.choice(['1e400', '1e308*100', '[1, 1e308*100]', '2^2000', '1e308*100+x', '-1e400', '1e400k', '1/0', 'ln(0)',
+                                    'cot(0)', '[1,2]/0', 'exp(1000)', 'f(1,2)', 'x/(y-3)']))
         shallow = [q for q in pool if len(q) < 200] or ['x']
         pool += [mutate(rng, rng.choice(shallow)) for _ in range(rng.randint(1, 3))]
         pool += [p.replace(' ', '') if rng.random() < 0.5 else ' ' + p.replace('+', ' + ') for p in pool[:2]]
